@@ -598,6 +598,12 @@ def run(ctx):
             known_lines.append("%s: %d of %d files; e.g. sb=%d %s: %s" % (e.get("id", "C05-" + t), tagcount[t], nfiles, w["sb"], w["where"], w["detail"][:150]))
         else:
             known_lines.append("%s: listed finding did NOT reproduce in this run (fixed upstream?)" % e.get("id", "C05-" + t))
+    # encoder-level findings whose witness is a theorem about the encoder transcription (tied byte-exactly to Go by C11):
+    # Props/C05Spec.v is re-checked by check.py before this module runs, so reaching this point re-confirms them
+    for e in vlib.known_findings("C05"):
+        if e.get("confirmed_by_theorem"):
+            known_lines.append("%s: %s (re-confirmed by theorem %s, Props/C05Spec.v re-checked in this run; no generated file uses this datatype class)"
+                               % (e["id"], (e.get("what") or e.get("title") or "")[:160], e["confirmed_by_theorem"]))
     # Coq cross-check of the sweep and of the checksum models
     side, side_ok = 2, 0
     got, cks = coq_crosscheck(samples, vectors)
